@@ -270,7 +270,7 @@ package mast
 //@ ensures dp [C02 C11 C13] (=> (DirtyPrivate H0) (DirtyPrivate H))
 //@ modifies W G.loads Arr.Any@fresh Node.*@fresh mastNode.*@fresh Box.Bytes@fresh
 //@ requires nn (> m 0)
-//@ requires ptrok (=> (= (a.tid link) tid.PmastNode) (and (> (a.val link) 0) (Shape H (a.val link))))
+//@ requires ptrok [T3] (=> (= (a.tid link) tid.PmastNode) (and (> (a.val link) 0) (Shape H (a.val link))))
 //@ ensures ptr (=> (isPtr link) (and (= err anil) (= result0 (a.val link)) (= H H0)))
 //@ ensures name (=> (and (isName link) (= err anil)) (and (> result0 0) (<= result0 W) (Shape H result0) (mastNode.shared H result0) (LinksOK H result0)))
 //@ ensures other (=> (and (not (isName link)) (not (= (a.tid link) tid.PmastNode))) (isErr err))
@@ -301,6 +301,10 @@ package mast
 // Search
 
 //@ func (*mastNode).dump
+//@ trusted
+//@ pure
+
+//@ func (*Mast).dump
 //@ trusted
 //@ pure
 
@@ -356,6 +360,7 @@ package mast
 //@ ensures loads [C16] (and (>= (G.loads H) (G.loads H0)) (<= (- (G.loads H) (G.loads H0)) (+ (- (findOptions.currentHeight H0 options) (findOptions.currentHeight H options)) (ite (isErr err) 1 0))))
 //@ ensures closure [T3] (AllOK H)
 //@ ensures healthy [C01] (=> healthy (= err anil))
+//@ ensures patharr (or (= (sl.arr (findOptions.path H options)) (sl.arr (findOptions.path H0 options))) (> (sl.arr (findOptions.path H options)) W0))
 //@ ensures frameopt (forall ((q Int)) (! (=> (not (= q options)) (and (= (findOptions.path H q) (findOptions.path H0 q)) (= (findOptions.currentHeight H q) (findOptions.currentHeight H0 q)))) :pattern ((findOptions.path H q)) :pattern ((findOptions.currentHeight H q))))
 //@ ensures framearr (forall ((a Int)) (! (=> (and (<= a W0) (or (= a 0) (not (= a (sl.arr (findOptions.path H0 options)))))) (= (select (h.Arr.S_pathEntry H) a) (select (h.Arr.S_pathEntry H0) a))) :pattern ((select (h.Arr.S_pathEntry H) a))))
 
@@ -514,11 +519,12 @@ package mast
 //@ safe-under healthy
 //@ modifies W Mast.root Arr.S_pathEntry Arr.Any Node.*@fresh mastNode.dirty mastNode.expected mastNode.source mastNode.shared@fresh
 //@ requires nn (and (> m 0) (not (= (Mast.keyOrder H m) 0)) (> (sl.len path) 0))
-//@ requires pathok [C01 C02] (PathOK H path)
+//@ requires pathok [T3] (PathOK H path)
 //@ requires dirtyprivate [C02 C11 C13] (DirtyPrivate H)
 //@ ensures noerr (= err anil)
 //@ ensures root [C01 C13] (or (isNil (Mast.root H m)) (and (isPtr (Mast.root H m)) (mastNode.dirty H (a.val (Mast.root H m))) (not (mastNode.shared H (a.val (Mast.root H m)))) (Shape H (a.val (Mast.root H m)))))
 //@ ensures dirtyprivate [C02 C11 C13] (DirtyPrivate H)
+//@ ensures pathok [C01 C02] (PathOK H path)
 //@ loop 1 invariant idx [C01 C02 C11 C13] (and (<= 0 i) (<= i (sl.len path)) (PathOK H path) (PathPrivate H path i) (DirtyPrivate H))
 //@ loop 2 invariant idx [C01 C02 C11 C13] (and (<= (- 1) i#2) (<= i#2 (- (sl.len path) 2)) (PathOK H path) (PathPrivate H path (sl.len path)) (DirtyPrivate H))
 
@@ -537,3 +543,60 @@ package mast
 //@ ensures healthy [C01] (=> healthy (= err anil))
 //@ ensures loads [C16] (>= (G.loads H) (G.loads H0))
 //@ loop 1 invariant idx (and (<= 0 splitIndex) (<= splitIndex (nkeys H node)))
+
+//@ func (*mastNode).canGrow
+//@ tags C01 C04 C12
+//@ modifies W Arr.Any@fresh
+//@ requires nn (and (> node 0) (not (= keyLayer 0)))
+//@ ensures healthy [C01] (=> healthy (= err anil))
+//@ ensures fail (=> (isErr err) (not result0))
+//@ abstract param:(*mastNode).canGrow.keyLayer (key bf) -> (layer err)
+//@ pure
+//@ ensures lay (=> (= err anil) (= layer (layerOf key bf)))
+//@ ensures healthy (=> healthy (= err anil))
+
+// Unchanged: the observable state of tree m is what it was: root, size, height, thresholds, and every
+// node that existed keeps its three sequences
+//@ smt (define-fun MastSame ((h0 Heap) (h Heap) (m Int)) Bool (and (= (Mast.root h m) (Mast.root h0 m)) (= (Mast.size h m) (Mast.size h0 m)) (= (Mast.height h m) (Mast.height h0 m)) (= (Mast.growAfterSize h m) (Mast.growAfterSize h0 m)) (= (Mast.shrinkBelowSize h m) (Mast.shrinkBelowSize h0 m))))
+//@ smt (define-fun NodesSame ((h0 Heap) (h Heap) (w Int)) Bool (forall ((r Int)) (! (=> (<= r w) (and (= (Node.Key h r) (Node.Key h0 r)) (= (Node.Value h r) (Node.Value h0 r)) (= (Node.Link h r) (Node.Link h0 r)))) :pattern ((Node.Key h r)) :pattern ((Node.Value h r)) :pattern ((Node.Link h r)))))
+
+//@ func (*Mast).Insert
+//@ tags C01 C02 C04 C09 C11 C12 C13 C16
+//@ uses ord
+//@ safe-under healthy
+//@ waive safe/panic#1 the in-code panic "dunno why we didn't land in the right layer" is unreachable only under the exact-layer invariant of the tree (T3, not proved)
+//@ modifies W G.loads Mast.root Mast.size Mast.height Mast.growAfterSize Mast.shrinkBelowSize Arr.S_pathEntry Arr.Any Node.* mastNode.* Box.Any Box.Int Box.Bytes findOptions.*
+//@ requires ok (MastCfg H m)
+//@ requires closure [T3] (AllOK H)
+//@ requires dirtyprivate [C02 C11 C13] (DirtyPrivate H)
+//@ ensures healthy [C01] (=> healthy (= err anil))
+//@ ensures size [C01] (=> (= err anil) (or (= (Mast.size H m) (Mast.size H0 m)) (= (Mast.size H m) (+ (Mast.size H0 m) 1))))
+//@ ensures dp [C02 C11 C13] (=> (= err anil) (DirtyPrivate H))
+//@ ensures dirty [C13] (=> (and (= err anil) (not (= H H0))) (or (isNil (Mast.root H m)) (not (isPtr (Mast.root H m))) (mastNode.dirty H (a.val (Mast.root H m)))))
+//@ ensures atomicmast [C12] (=> (isErr err) (MastSame H0 H m))
+//@ ensures atomicnodes [C12] (=> (isErr err) (NodesSame H0 H W0))
+//@ loop 1 invariant grow (and (> (sl.len (findOptions.path H options&)) 0) (MastCfg H m))
+//@ loop 1 invariant pathok [T3] (PathOK H (findOptions.path H options&))
+//@ loop 1 invariant dp [C02 C11 C13] (DirtyPrivate H)
+
+//@ func (*mastNode).extract
+//@ tags C01 C02 C04 C09 C11
+//@ modifies W Arr.Any@fresh Node.*@fresh mastNode.*@fresh
+//@ requires nn (> node 0)
+//@ requires range (and (<= 0 from) (<= from to) (<= to (nkeys H node)) (Shape H node))
+//@ ensures res [C01 C09] (or (= result 0) (and (> result W0) (<= result W) (Shape H result) (FreshArrays H result W0) (mastNode.dirty H result) (not (mastNode.shared H result)) (= (nkeys H result) (- to from))))
+//@ ensures dp [C02 C11 C13] (=> (DirtyPrivate H0) (DirtyPrivate H))
+
+//@ func (*Mast).grow
+//@ tags C01 C02 C04 C11 C12 C13
+//@ safe-under healthy
+//@ modifies W G.loads Mast.root Mast.height Mast.growAfterSize Mast.shrinkBelowSize Arr.Any Node.*@fresh mastNode.*@fresh Box.Bytes@fresh
+//@ requires ok (MastCfg H m)
+//@ ensures healthy [C01] (=> healthy (= err anil))
+//@ ensures dp [C02 C11 C13] (=> (DirtyPrivate H0) (DirtyPrivate H))
+//@ ensures cfg [C01] (=> (= err anil) (MastCfg H m))
+//@ ensures thresholds [C04] (=> (= err anil) (and (= (Mast.height H m) (mod (+ (Mast.height H0 m) 1) 256)) (= (Mast.shrinkBelowSize H m) (Mast.growAfterSize H0 m)) (= (Mast.growAfterSize H m) (* (Mast.growAfterSize H0 m) (Mast.branchFactor H0 m)))))
+//@ ensures atomic [C12] (=> (isErr err) (MastSame H0 H m))
+//@ ensures root [C13] (=> (= err anil) (and (isPtr (Mast.root H m)) (mastNode.dirty H (a.val (Mast.root H m)))))
+//@ loop 1 invariant shape (and (<= (- 1) rangeindex) (<= 0 start) (<= start (+ rangeindex 1)) (<= start (nkeys H node)) (> node 0) (Shape H node) (= (nlinks H newNode&) (+ (nkeys H newNode&) 1)) (MastCfg H m))
+//@ loop 1 invariant dp [C02 C11 C13] (=> (DirtyPrivate H0) (DirtyPrivate H))
